@@ -496,6 +496,10 @@ func (m *ConnectMessage) decodeMessage(src []byte) (int, error) {
 	var err error
 	n, total := 0, 0
 
+	// Decoding replaces whatever the message held before, also the fields
+	// that the new flags say are absent.
+	m.willTopic, m.willMessage, m.username, m.password = nil, nil, nil, nil
+
 	m.protoName, n, err = readLPBytes(src[total:])
 	total += n
 	if err != nil {
